@@ -163,7 +163,9 @@ pub fn drive(a: &Args) {
     install_panic_hook();
     let out = a.str("out", "work/arp.ndjson");
     *OUT_PATH.lock().unwrap() = Some(out.clone());
-    let _ = std::fs::remove_file(&out);
+    if a.u64("from", 0) == 0 {
+        let _ = std::fs::remove_file(&out);
+    }
     let seed = a.u64("seed", 1);
     let runs = a.u64("runs", 100);
     for run in a.u64("from", 0)..runs {
